@@ -10,8 +10,10 @@ for d in "$@"; do
   git -C $R checkout -q -- .
   if ! git -C $R apply "$d/patch.diff" 2>/dev/null; then echo "$d APPLY-FAIL"; continue; fi
   bad=0
+  near=$(python3 -c "import json;print(json.load(open('$d/meta.json')).get('near_property',''))" 2>/dev/null)
   for i in $(seq -w 1 20); do
-    out=$(./check C$i quick 2>&1); rc=$?
+    # OTHERS_SCALE (e.g. 0.3) shortens the checks of the properties the control was not written near
+    if [ -n "$OTHERS_SCALE" ] && [ "C$i" != "$near" ]; then out=$(VERIF_SCALE=$OTHERS_SCALE ./check C$i quick 2>&1); rc=$?; else out=$(./check C$i quick 2>&1); rc=$?; fi
     if [ $rc -ne 0 ]; then bad=$((bad+1)); echo "$d C$i rc=$rc $(echo "$out" | grep -A1 -E 'VIOLATION|INCONCLUSIVE' | grep -v VIOLATION | head -1 | cut -c1-400)"; fi
   done
   git -C $R checkout -q -- .
